@@ -330,6 +330,11 @@ func (p *Parser) parseExpressionNested(precedence ast.Priority) ast.Node {
 		p.continuationNeeded = true
 		return nil
 	}
+	if p.curToken.Type() == token.ILLEGAL && p.peekTokenIs(token.EOL) && strings.ContainsAny(p.curToken.Literal()[:1], "\"`") {
+		log.Debugf("parseExpression: unterminated string in line mode")
+		p.continuationNeeded = true
+		return nil
+	}
 	prefix := p.prefixParseFns[p.curToken.Type()]
 	if prefix == nil {
 		if !p.peekTokenIs(token.LAMBDA) { // To make () => { ... } without errors.
